@@ -164,8 +164,13 @@ NativeInteger_encode_der(const asn_TYPE_descriptor_t *sd, const void *ptr,
 	uint8_t *p;
 
 	/* Prepare a fake INTEGER */
+#ifdef	VLM_ASN1C_VERIF	/* Same loop without forming a pointer before buf[] */
+	for(p = buf + sizeof(buf); p > buf; native >>= 8)
+		*--p = (uint8_t)native;
+#else
 	for(p = buf + sizeof(buf) - 1; p >= buf; p--, native >>= 8)
 		*p = (uint8_t)native;
+#endif	/* VLM_ASN1C_VERIF */
 
 	tmp.buf = buf;
 	tmp.size = sizeof(buf);
